@@ -617,7 +617,7 @@ class Interp:
     # ------------------------------------------------------------------ attributes
     def getattr(self, v, name):
         if isinstance(v, Obj):
-            return self.obj_getattr(v, name)
+            return self.obj_getattr(_alias_root(v) if name != "__class__" else v, name)
         if isinstance(v, SuperProxy):
             mro = v.obj.cls.__mro__ if isinstance(v.obj, Obj) else type(v.obj).__mro__
             idx = mro.index(v.cls)
@@ -718,6 +718,7 @@ class Interp:
 
     def hasattr(self, v, name) -> bool:
         if isinstance(v, Obj):
+            v = _alias_root(v)
             if name in v.attrs:
                 return True
             if name in getattr(v, "deleted", ()):
@@ -735,6 +736,17 @@ class Interp:
         return hasattr(v, name)
 
     def setattr(self, v, name, value):
+        if isinstance(v, Obj) and name == "__dict__":
+            # `obj.__dict__ = d`: the instance dict is REPLACED.  With d the instance dict of another object (copy.copy hands
+            # x.__dict__ itself to __setstate__) the two objects share every attribute from here on.
+            if isinstance(value, ObjDictView):
+                v.alias_of = _alias_root(value.o)
+                v.attrs = v.alias_of.attrs  # (the same dict object: contracts that read .attrs see the shared state)
+                cur().event("dict_aliased", v, v.alias_of)
+                return
+            raise Unsupported("obj.__dict__ = <dict>")
+        if isinstance(v, Obj):
+            v = _alias_root(v)
         if isinstance(v, Obj):
             cls_attr = _find_in_mro(v.cls, name) if v.cls is not None else None
             if isinstance(cls_attr, property) and name not in v.field_types:
@@ -771,6 +783,7 @@ class Interp:
 
     def delattr(self, v, name):
         if isinstance(v, Obj):
+            v = _alias_root(v)
             if v.pre and name not in v.attrs:
                 heap.materialise(v, name)
             if name in v.attrs:
@@ -1925,9 +1938,31 @@ class BuiltinInit:
         return None
 
 
+def _alias_root(o):
+    """the object whose instance dict `o` uses (o itself unless `o.__dict__ = other.__dict__` was executed)"""
+    seen = 0
+    while getattr(o, "alias_of", None) is not None and seen < 10:
+        o, seen = o.alias_of, seen + 1
+    return o
+
+
 class ObjDictView:
+    """obj.__dict__: the instance dict of a heap object"""
+
     def __init__(self, o):
         self.o = o
+
+    def update(self, other=None, **kw):
+        # d.update(state): copies the entries (copy.copy without a custom __setstate__)
+        from .stdlib_models import LazyCopyAttrs
+
+        if isinstance(other, ObjDictView):
+            tgt = _alias_root(self.o)
+            if tgt.attrs:
+                raise Unsupported("__dict__.update on an object that already has attributes")
+            tgt.attrs = LazyCopyAttrs(_alias_root(other.o))
+            return None
+        raise Unsupported("__dict__.update(<dict>)")
 
 
 class ListMutator:
